@@ -649,7 +649,39 @@ def _gm_raise_cond(self, product_paths):
     return wrap_bool(tm.And(_gm_member(product_paths, path), View(db).globmatch(path)))
 
 
-@contract("stepup/core/workflow.py::Workflow._raise_if_glob_match", props=["C08"])
+def _mag_complete_keys(args):
+    c = cur()
+    db = c.data["args"]["self"]._fields["db"]
+    p = c.data["args"]["path"]
+    glob_axioms(db, p)
+    g = GW(db, p)
+    return [dict(nglob=g, node=graphdb.val(db, "nglob", "node", g))]
+
+
+MAG_QUERY = graphdb.query("SELECT nglob.regex FROM nglob JOIN node", ty.TupleOf(ty.Str), complete_keys=_mag_complete_keys)
+
+
+def _mag_post(self, path, result):
+    """True exactly when some attached registration's stored regular expression matches the whole path."""
+    c = cur()
+    db = db_of(self)
+    glob_axioms(db, path)
+    g = tm.Var(c.fresh_name("g!bound"), INT)
+    c.pc.append(tm.ForAll([(g.s, INT)], tm.Implies(is_glob_match(db, g, path), View(db).globmatch(path)),
+                          patterns=[[graphdb.val(db, "nglob", "regex", g)]]))
+    return wrap_bool(tm.Iff(B(result), View(db).globmatch(path)))
+
+
+@contract("stepup/core/workflow.py::Workflow.matches_any_glob", props=["C17", "C08"])
+class matches_any_glob:
+    args = dict(self=lambda a: workflow_spec([MAG_QUERY]).fresh("workflow"), path=ty.Str)
+    env = dict(re=ReStub)
+    ensures = _mag_post
+    result = ty.Bool
+    modifies = []
+
+
+@contract("stepup/core/workflow.py::Workflow._raise_if_glob_match", props=["C08", "C17"])
 class raise_if_glob_match:
     """Returns normally only if no attached glob registration matches any of the product paths; raises only if
     one does."""
